@@ -1,6 +1,6 @@
 """C14 - an exception raised by a key comparison leaves the container intact."""
 from .. import engine
-from ..rules import cmpexc, changed, refs
+from ..rules import cmpexc, changed, refs, clearfill
 
 
 def tu_check(tu):
@@ -13,13 +13,16 @@ def tu_check(tu):
         lr = refs.analyse_tu(tu)
         f += lr["findings"]
         stats["newref_sources"] = lr["stats"]["newref_sources"]
+        cf = clearfill.analyse_tu(tu)
+        f += cf["findings"]
+        stats["clear_sites"] = cf["stats"]["clear_sites"]
     return dict(findings=f, stats=stats)
 
 
 def run(tier="quick", seed=0, use_cache=True):
     res = engine.Result("C14")
     res.rules = ["CMP-EXIT", "ITER-FINI", "CMP-AFTER-COMMIT", "GROW-ROLLBACK", "LOCAL-REF",
-                 "PY-CMP-AFTER-COMMIT"]
+                 "PY-CMP-AFTER-COMMIT", "CLEAR-THEN-FILL"]
     res.explanation = (
         "Path rules over the clang CFG of every function of the 22 "
         "translation units that compares keys or owns a SetIteration: from "
@@ -33,7 +36,10 @@ def run(tier="quick", seed=0, use_cache=True):
         "(LOCAL-REF, object-key units); and in the tree mutators no key "
         "comparison with a live error exit is executed after the child has "
         "been modified (CMP-AFTER-COMMIT, C and Python) - such an exit "
-        "returns with a partial change. What the container holds after the "
+        "returns with a partial change; and no operation empties its own "
+        "container and then rebuilds it through calls from which a key "
+        "comparison is reachable (CLEAR-THEN-FILL, object-key units; state "
+        "loaders are CONV-BEFORE-MUT's). What the container holds after the "
         "n-th comparison of a concrete operation fails is not decided.")
     res.assumptions = ["comparison error exits are dead code in native-key families (constant-false condition) and are pruned there"]
     out = engine.map_tus("sa.props.C14", "tu_check", use_cache=use_cache)
@@ -52,6 +58,8 @@ def run(tier="quick", seed=0, use_cache=True):
     res.count("ITER-FINI", tot["iter_sites"])
     res.count("GROW-ROLLBACK", tot["grow_first_leaf_sites"])
     res.count("LOCAL-REF", tot.get("newref_sources", 0))
+    res.floor("calls that empty the function's own container (object-key units)", tot.get("clear_sites", 0), 5 * 5)
+    res.count("CLEAR-THEN-FILL", tot.get("clear_sites", 0))
     cmpexc.py_rules(res)
     res.units = {"translation_units": len(out)}
     res.samples = [
